@@ -73,6 +73,7 @@ where
     if a.map != c.map {
         obs.fail("draw-default==draw-draining", format!("image: {}", map_diff(&a.map, &c.map)));
     }
+    egverif::proto::consumption_protocol("image", &image, obs);
 }
 
 fn check_img(case: &ImgCase, obs: &mut Obs) {
@@ -102,6 +103,7 @@ fn check_text<C: TestColor>(case: &TextCase, obs: &mut Obs) {
     if ra != rb || ra != rc {
         obs.fail("draw-result-same-on-all-targets", format!("{ra:?} {rb:?} {rc:?}"));
     }
+    egverif::proto::consumption_protocol("text", &t, obs);
 }
 
 /// A drawable on a target with a small bounding box that it overhangs: the two target flavours must
@@ -185,6 +187,7 @@ fn check_bounded(c: &BoundedCase, obs: &mut Obs) {
                 through!("clipped", clipped, &bb);
                 through!("translated", translated, Point::new(3, -2));
             }
+            egverif::proto::consumption_protocol("styled primitive", &s, obs);
             obs.class_if(!ic.is_empty() && s.primitive.bounding_box().intersection(&bb).is_zero_sized(), "only-the-stroke-reaches-the-target");
             if ia != ic {
                 obs.fail("draw==pixels-inside-the-target", format!("target box {:?}: a=draw(), b=pixels(): {}", tb, map_diff(&ia, &ic)));
@@ -350,7 +353,7 @@ fn main() {
         assumptions: &["bounded to the listed catalogue (sizes, grids, stroke widths, fonts, strings)", "the harness's native target implements the documented meaning of fill_contiguous (row-major, stops at the shorter of area and stream), fill_solid and clear"],
         parts: |_| vec![PartSpec::new("shapes", "verif"), PartSpec::new("triangles", "verif"), PartSpec::new("polylines", "verif"), PartSpec::new("images-text", "verif"), PartSpec::new("angles-fixed-point", "verif_fp")],
         run_part,
-        required_classes: |_| vec!["rect", "circle", "ellipse", "rrect", "triangle", "line", "arc", "sector", "polyline", "fill-only", "stroke-only", "fill+stroke", "stroke-colour-absent-width>0", "width-0", "fully-negative", "image", "sub-image", "sub-sub-image", "row-padding", "text", "text-background", "text-decoration", "text-multiline", "bounded-target", "overhangs-the-target", "only-the-stroke-reaches-the-target"],
+        required_classes: |_| vec!["rect", "circle", "ellipse", "rrect", "triangle", "line", "arc", "sector", "polyline", "fill-only", "stroke-only", "fill+stroke", "stroke-colour-absent-width>0", "width-0", "fully-negative", "image", "sub-image", "sub-sub-image", "row-padding", "text", "text-background", "text-decoration", "text-multiline", "bounded-target", "consumption-protocol", "overhangs-the-target", "only-the-stroke-reaches-the-target"],
         crash_is_verdict: false,
     })
 }
